@@ -543,6 +543,24 @@ impl C08 {
         if nops == 0 {
             rep.count("gen.zero_fault", 1);
         }
+        // unusual-but-legal whole documents in place of a data / test / template file
+        if r.chance(1, 5) {
+            const DOCS: &[&[u8]] = &[
+                b"# only a comment\n", b"---\n", b"--- \n...\n", b"{}", b"[]", b"null", b"~", b"1", b"\"just a string\"", b"- a\n- b\n", b"---\n# c\n---\n",
+                b"a: &x [1, 2]\nb: *x\n", b"a: &x {k: 1}\nb:\n  <<: *x\n  j: 2\n", b"? [complex, key]\n: value\n", b"a: !!binary aGVsbG8=\n", b"a: !Ref b\nc: !GetAtt d.e\nf: !Sub '${g}'\n",
+                b"a: .inf\nb: -.inf\nc: .nan\nd: 0x1F\ne: 0o17\nf: 1_000\ng: 2001-12-14t21:59:43.10-05:00\n", b"a: 123456789012345678901234567890\nb: 1e999\nc: -0\n",
+                b"{\"a\": 123456789012345678901234567890, \"b\": 1e999, \"c\": -0.0}", b"a: |\n  line1\n  line2\nb: >-\n  folded\n  text\n", b"%YAML 1.2\n---\na: 1\n", b"\ta: 1\n",
+                b"Resources: 7\n", b"Resources: []\n", b"Resources:\n  A: 5\n", b"Resources:\n  A:\n    Properties:\n      P: 1\n", b"Resources:\n  A:\n    Type: 5\n    Properties:\n      P: 1\n",
+                b"Resources:\n  A:\n    Type: [a]\n    Properties: {P: {Q: [1, {R: null}]}}\n", b"Resources:\n  A:\n    Type: AWS::X::Y\n    Properties: [1, 2]\n", b"{\"Resources\": {\"A\": {\"Type\": \"AWS::X::Y\", \"Properties\": {\"P\": \"a\\nb\", \"Q\": \"\\\"q\\\"\"}}}}",
+            ];
+            let cands: Vec<usize> = (0..files.len()).filter(|i| files[*i].rel.starts_with("data/") || files[*i].rel.starts_with("tmpl/") || files[*i].rel.starts_with("tests/") || files[*i].rel.starts_with("params/") || files[*i].rel == "stdin/data.json").collect();
+            if !cands.is_empty() {
+                let i = cands[r.usize(cands.len())];
+                files[i].bytes = r.pick(DOCS).to_vec();
+                rep.count("storage_fault.replaced_by_unusual_document", 1);
+                applied.push((files[i].rel.clone(), "unusual_document"));
+            }
+        }
         // read-path faults
         let faults = if r.chance(1, 3) {
             FaultSpec::Random {
